@@ -4106,7 +4106,7 @@ func (d *jsonDecDriverBytes) DecodeNaked() {
 				z.v = valueTypeBool
 				z.b = false
 			default:
-				if err = jsonNakedNum(z, bs, d.h.PreferFloat, d.h.SignedInteger); err != nil {
+				if !jsonIsNumberLiteral(bs) || jsonNakedNum(z, bs, d.h.PreferFloat, d.h.SignedInteger) != nil {
 					z.v = valueTypeString
 					z.s = d.d.detach2Str(bs, att)
 				}
@@ -8316,7 +8316,7 @@ func (d *jsonDecDriverIO) DecodeNaked() {
 				z.v = valueTypeBool
 				z.b = false
 			default:
-				if err = jsonNakedNum(z, bs, d.h.PreferFloat, d.h.SignedInteger); err != nil {
+				if !jsonIsNumberLiteral(bs) || jsonNakedNum(z, bs, d.h.PreferFloat, d.h.SignedInteger) != nil {
 					z.v = valueTypeString
 					z.s = d.d.detach2Str(bs, att)
 				}
